@@ -5,10 +5,12 @@
    DeleteExistingTopic / Notify, nsqd/topic.go GetChannel / DeleteExistingChannel /
    exit / messagePump gate):
 
-     objs   every Topic / Channel object ever created, by identity (index), with its
-            exiting flag, whether it is still in its map (n.topicMap / t.channelMap),
-            the creator's progress through GetTopic (o_pc, o_todo), the pump gate
-            (o_started) and a FIFO of message ids (o_q);
+     objs   every Topic / Channel object ever created, by identity (index): parent,
+            names, exiting flag, whether it is still in its map (n.topicMap /
+            t.channelMap) — all the lookup side ever looks at;
+     dats   the data-path part of the same objects: the creator's progress through
+            GetTopic (d_pc, d_todo), the pump gate (d_started), a FIFO of message ids
+            (d_q), and one ghost field (d_want) used only by theorems;
      bag    the pending notifications: one parked Notify goroutine per element, each
             holding an OBJECT; the loop may receive them in ANY order ([Deliver i]) and
             decides REGISTER vs UNREGISTER from the object's CURRENT exiting flag;
@@ -20,7 +22,7 @@
             the fault scripts of the link: what the next connection attempts and the
             next replies will do).
 
-   Deletion is two steps (flag + Notify first, removal from the map later) because
+   Deletion is two steps (exit flag + Notify first, removal from the map later) because
    connectCallback walks the maps without looking at the exiting flags.  GetTopic is a
    little program run by the creator ([TopicAdvance]): query nsqlookupd, create the
    channels one by one, Start — in the order given by the generated table.
@@ -29,7 +31,9 @@
    the whole daemon to [Crashed].  Modelled, not verified: TCP (a connection is a byte
    FIFO; bytes already received stay readable after the other side has gone),
    encoding/json (a reply is accepted as peer info iff it starts with '{'), the Go
-   scheduler (the order of [op]s is arbitrary).  No proofs here. *)
+   scheduler (the order of [op]s is arbitrary).  [hazard] is the decidable region of
+   loop schedules in which a registration is lost or resurrected (findings K6, K6b and
+   one sibling window); the convergence theorem holds outside it.  No proofs here. *)
 From Coq Require Import List NArith ZArith Bool.
 From RecordUpdate Require Import RecordUpdate.
 From NSQV Require Import gen.Consts gen.SyncTab model.Judge.
